@@ -115,3 +115,72 @@ def trendHistory (d0 : Nat) (b0 : Bool) (y0 : List Val) (o0 : Int) (d : Nat) (b 
   (((TObj.new d0 b0).fitOrKeep y0 o0).setParams d b).fit y origin
 
 end SkVerif.History
+
+/-! ### several objects alive at once
+
+A world is a family of objects addressed by an identifier; every call names the object it is made on.  In the model a
+call reads and writes only the object it names: the forecasters keep no class-level or module-level state
+(`fit` creates its regressor / statsmodels model / window bookkeeping anew from the object's own parameters). -/
+namespace SkVerif.World
+
+/-- calls on one object: `S` state, `Op` call, `Out` what the caller gets back -/
+structure Machine (S Op Out : Type) where
+  step : S → Op → S × Out
+
+variable {S Op Out : Type}
+
+/-- run calls on ONE object, collecting the answers -/
+def runLocal (m : Machine S Op Out) : S → List Op → S × List Out
+  | s, [] => (s, [])
+  | s, op :: ops =>
+    let (s', o) := m.step s op
+    let (s'', os) := runLocal m s' ops
+    (s'', o :: os)
+
+/-- run addressed calls on a world of objects; answers are tagged with the object they came from -/
+def run (m : Machine S Op Out) : (Nat → S) → List (Nat × Op) → (Nat → S) × List (Nat × Out)
+  | w, [] => (w, [])
+  | w, (i, op) :: ops =>
+    let (s', o) := m.step (w i) op
+    let (w', os) := run m (fun j => if j = i then s' else w j) ops
+    (w', (i, o) :: os)
+
+end SkVerif.World
+
+namespace SkVerif.History
+open SkVerif SkVerif.Naive
+
+/-- the calls made on a `NaiveForecaster` object -/
+inductive NOp
+  | setParams (st : Strategy) (sp : Int) (wl : Option Int)
+  | fit (y : List Val) (origin : Int)
+  | predict (raw : FH.Raw) (rel : Bool)
+
+/-- one call: a rejected fit leaves the object as it was; `predict` on an object that was never fitted raises -/
+def naiveMachine : World.Machine NObj NOp (Except Err (List (Int × Val))) where
+  step o op :=
+    match op with
+    | .setParams st sp wl => (o.setParams st sp wl, .ok [])
+    | .fit y origin =>
+      match o.fit y origin with
+      | .ok o' => (o', .ok [])
+      | .error e => (o, .error e)
+    | .predict raw rel => (o, if o.fitted then o.predict raw rel else .error .value)
+
+/-- the calls made on a `PolynomialTrendForecaster` object -/
+inductive TOp
+  | setParams (degree : Nat) (bias : Bool)
+  | fit (y : List Val) (origin : Int)
+  | predict (raw : FH.Raw) (rel : Bool)
+
+def trendMachine : World.Machine TObj TOp (Except Err (List (Int × Val))) where
+  step o op :=
+    match op with
+    | .setParams d b => (o.setParams d b, .ok [])
+    | .fit y origin =>
+      match o.fit y origin with
+      | .ok o' => (o', .ok [])
+      | .error e => (o, .error e)
+    | .predict raw rel => (o, o.predict raw rel)
+
+end SkVerif.History
